@@ -46,6 +46,8 @@ macro_rules! dispatch_notification {
                     if let Ok(params) = $notification.extract::<<$async_notif as LspNotification>::Params>(<$async_notif>::METHOD) {
                         let snapshot = $context.snapshot();
                         tokio::spawn(async move {
+                            #[cfg(feature = "verif-hooks")]
+                            crate::verif::sched_point("notification-task-start").await;
                             $async_handler(snapshot, params).await;
                         });
                     }
